@@ -33,18 +33,18 @@ PROPS = {
     "C05": {"quick": [J("^vhC05_multi_T4$|^vhC05_windowreentrant_n2$|^vhC05_arity_s4$", samples=4), J("^vhC05_conc_v1$|^vhC05_conczip_v2$", preempt=0, samples=2, maxpaths=600000)],
             "thorough": [J("^vhC05_multi_T5$|^vhC05_windowreentrant_n3$|^vhC05_arity_s6$", samples=8, maxpaths=1000000), J("^vhC05_conc_v2$", preempt=0, samples=2, maxpaths=3000000), J("^vhC05_concsel_v1$", preempt=1, samples=2, maxpaths=3000000)], "bounds": {}, "assumptions": []},
     "C06": {"quick": [J("^vhC06_(inside_L2|wait_L1|collect_L2)$", preempt=1, samples=3), J("^vhC05_multi_T3$", samples=1, only_kinds=["deadlock"]), J("^vhC08_handoff_n2$", preempt=0, samples=1, only_msgs="still running after the terminal|not closed after the terminal")], "thorough": [J("^vhC06_(inside_L3|collect_L3)$", preempt=2, samples=4, maxpaths=1500000), J("^vhC06_wait_L2$", preempt=1, samples=2, maxpaths=1500000), J("^vhC06_wait_L1$", preempt=2, samples=2, maxpaths=1500000)], "bounds": {}, "assumptions": []},
-    "C08": {"quick": [J("^vhC08_(sync_L2|handoff_n2)$", preempt=1, samples=3), J("^vhC08_handoff_n5$", preempt=0, samples=2), J("^vhC17_tochannel_L2$", preempt=1, samples=2, timeshim=True, only_msgs="closed before the terminal|out of order|values differ|more notifications"), J("^vhC09_cancel_L2$", samples=2, only_msgs="no Error although")], "thorough": [J("^vhC08_(sync_L3|handoff_n3)$", preempt=2, samples=4), J("^vhC08_handoff_n5$", preempt=1, samples=2, maxpaths=2000000)], "bounds": {}, "assumptions": []},
+    "C08": {"quick": [J("^vhC08_(sync_L2|handoff_n2)$", preempt=1, samples=3), J("^vhC08_handoff_n5$", preempt=0, samples=2), J("^vhC17_tochannel_L2$", preempt=1, samples=2, timeshim=True, only_msgs="closed before the terminal|out of order|values differ|more notifications"), J("^vhC09_cancel_L2$", samples=2, only_msgs="no Error although"), J("^vhC10_concsub_", preempt=1, samples=1, only_msgs="lost or duplicated|emission order")], "thorough": [J("^vhC08_(sync_L3|handoff_n3)$", preempt=2, samples=4), J("^vhC08_handoff_n5$", preempt=1, samples=2, maxpaths=2000000)], "bounds": {}, "assumptions": []},
     "C14": {"quick": [J("^vhC14_ctx_L1$", preempt=0, samples=3, timeshim=True), J("^vhC14_early_L2$|^vhC14_multi_L2$", samples=4), J("^vhC03_subconc_(2|3)$", preempt=2, samples=1), J("^vhC11_share_K4$", samples=2, only_msgs="upstream subscription does not follow|more than one live"), J("^vhC17_fromchannel_L2$", preempt=1, samples=2, timeshim=True)], "thorough": [J("^vhC14_ctx_L2$", preempt=1, samples=3, timeshim=True), J("^vhC14_early_L3$|^vhC14_multi_L2$", preempt=1, samples=6, maxpaths=1500000), J("^vhC03_subconc_(2|3)$", preempt=3, samples=1)], "bounds": {}, "assumptions": []},
     "C17": {"quick": [J("^vhC17_.*_L2$", preempt=1, samples=3, timeshim=True), J("^vhC12_reuse2_L2$", samples=2, only_msgs="^ToMap|^ToSlice|^Materialize|^Dematerialize"), J("^vhC04_nilerr_L2$", samples=2, only_msgs="^ToMap|^ToSlice|^Materialize|^Dematerialize"), J("^vhC14_early_L2$", samples=2, only_msgs="^ToMap|^ToSlice|^Materialize|^Dematerialize")], "thorough": [J("^vhC17_.*_L3$", preempt=1, samples=4, timeshim=True, maxpaths=2000000)], "bounds": {}, "assumptions": []},
-    "C02": {"quick": [J("^vhC02_core_(2x2|3x1)$", preempt=0, samples=2), J("^vhC02_core_2x2$", preempt=1, samples=3, maxpaths=600000),
+    "C02": {"quick": [J("^vhC02_core_(2x2|3x1)$|^vhC02_chainunsafe_n1$", preempt=0, samples=2), J("^vhC02_core_2x2$", preempt=1, samples=3, maxpaths=600000),
                       J("^vhC10_conc(via)?_|^vhC05_conc_v1$", preempt=0, samples=1, only_msgs="overlapped", maxpaths=600000),
                       J("^vhC13_time_n1$|^vhC02_ctx_n1$", preempt=1, samples=2, timeshim=True, only_msgs="overlapped|grammar|after a terminal|never emitted")],
-            "thorough": [J("^vhC02_core_2x2$", preempt=2, samples=6, maxpaths=4000000), J("^vhC02_core_3x1$", preempt=1, samples=3, maxpaths=2000000), J("^vhC10_conc(via)?_", preempt=1, samples=1, only_msgs="overlapped", maxpaths=3000000), J("^vhC05_conczip_v2$|^vhC05_conc_v1$", preempt=0, samples=1, only_msgs="overlapped", maxpaths=3000000),
+            "thorough": [J("^vhC02_chainunsafe_n2$", preempt=1, samples=2, maxpaths=1000000), J("^vhC02_core_2x2$", preempt=2, samples=6, maxpaths=4000000), J("^vhC02_core_3x1$", preempt=1, samples=3, maxpaths=2000000), J("^vhC10_conc(via)?_", preempt=1, samples=1, only_msgs="overlapped", maxpaths=3000000), J("^vhC05_conczip_v2$|^vhC05_conc_v1$", preempt=0, samples=1, only_msgs="overlapped", maxpaths=3000000),
                          J("^vhC13_time_n2$|^vhC02_ctx_n2$", preempt=1, samples=2, timeshim=True, only_msgs="overlapped|grammar|after a terminal|never emitted", maxpaths=1500000), J("^vhC13_time_n1$|^vhC02_ctx_n1$", preempt=2, samples=2, timeshim=True, only_msgs="overlapped|grammar|after a terminal|never emitted", maxpaths=1500000)], "bounds": {"threads": 3, "preemptions_quick": 1, "preemptions_thorough": 2}, "assumptions": []},
     "C03": {"quick": [J("^vhC03_(sub_K3|cut_L2)$|^vhC03_multipanic$", samples=4), J("^vhC03_subconc_(2|3)$", preempt=0, samples=1), J("^vhC03_subconc_(2|3)$", preempt=2, samples=1), J("^vhC11_(share|conn)_K4$", samples=2, only_msgs="upstream subscription|source subscription"), J("^vhC12_overlap_L1$", samples=2, only_msgs="upstream subscription")], "thorough": [J("^vhC03_(sub_K4|cut_L3)$|^vhC03_multipanic$", samples=8), J("^vhC03_subconc_(2|3)$", preempt=0, samples=1), J("^vhC03_subconc_(2|3)$", preempt=3, samples=1), J("^vhC11_(share|conn)_K5$", samples=2, only_msgs="upstream subscription|source subscription"), J("^vhC12_overlap_L2$", samples=2, only_msgs="upstream subscription", maxpaths=1000000)], "bounds": {}, "assumptions": []},
-    "C07": {"quick": [J("^vhC07_.*_L2$", samples=4), J("^vhC08_handoff_n(2|5)$", preempt=0, samples=1, only_msgs="lost or duplicated|terminal notification"), J("^vhC02_core_(2x2|3x1)$", preempt=0, samples=1, only_msgs="terminal notification was emitted"), J("^vhC05_multi_T3$", samples=1, only_msgs="differs from the reference")], "thorough": [J("^vhC07_.*_L3$", samples=8), J("^vhC08_handoff_n(3|5)$", preempt=1, samples=1, only_msgs="lost or duplicated|terminal notification", maxpaths=2000000)], "bounds": {}, "assumptions": []},
+    "C07": {"quick": [J("^vhC07_.*_L2$", samples=4), J("^vhC08_handoff_n(2|5)$", preempt=0, samples=1, only_msgs="lost or duplicated|terminal notification"), J("^vhC02_core_(2x2|3x1)$", preempt=0, samples=1, only_msgs="terminal notification was emitted"), J("^vhC05_multi_T3$", samples=1, only_msgs="differs from the reference|no thread can run|blocked at|livelock")], "thorough": [J("^vhC07_.*_L3$", samples=8), J("^vhC08_handoff_n(3|5)$", preempt=1, samples=1, only_msgs="lost or duplicated|terminal notification", maxpaths=2000000)], "bounds": {}, "assumptions": []},
     "C09": {"quick": [J("^vhC09_.*_L2$|^vhC09_multi_T2$", samples=4), J("^vhC09_async_n2$", samples=3, timeshim=True), J("^vhC11_share_K4$", samples=2, only_msgs="context other than"), J("^vhC09_cancel_L2$", samples=2), J("^vhC07_core_L2$", samples=2, only_msgs="context"), J("^vhC09_float$", samples=2, tags="math_big_pure_go", init="math,math/big,math/bits,strconv")], "thorough": [J("^vhC09_.*_L3$|^vhC09_multi_T3$", samples=8), J("^vhC09_async_n3$", preempt=0, samples=3, timeshim=True), J("^vhC09_async_n2$", preempt=2, samples=3, timeshim=True, maxpaths=1500000), J("^vhC11_share_K5$", samples=2, only_msgs="context other than"), J("^vhC09_cancel_L3$", samples=2), J("^vhC07_core_L3$", samples=2, only_msgs="context"), J("^vhC09_float$", samples=2, tags="math_big_pure_go", init="math,math/big,math/bits,strconv")], "bounds": {}, "assumptions": []},
-    "C12": {"quick": [J("^vhC12_(reuse|reuse2|opvalue|conc)_L2$|^vhC12_multi_T2$|^vhC12_overlap_L1$", samples=4), J("^vhC16_overlap_2$", samples=2, timeshim=True)], "thorough": [J("^vhC12_(reuse|reuse2|opvalue)_L3$|^vhC12_multi_T3$", samples=8, maxpaths=2000000), J("^vhC12_conc_L2$|^vhC12_overlap_L2$", samples=4, maxpaths=1000000)], "bounds": {}, "assumptions": []},
+    "C12": {"quick": [J("^vhC12_(reuse|reuse2|opvalue|conc)_L2$|^vhC12_multi_T2$|^vhC12_overlap_L1$", samples=4), J("^vhC16_overlap_2$|^vhC12_ctxtimeout$", samples=2, timeshim=True)], "thorough": [J("^vhC12_(reuse|reuse2|opvalue)_L3$|^vhC12_multi_T3$", samples=8, maxpaths=2000000), J("^vhC12_conc_L2$|^vhC12_overlap_L2$", samples=4, maxpaths=1000000)], "bounds": {}, "assumptions": []},
     "C01": {"quick": [J("^vhC01_.*_L3$", samples=6), J("^vhC04_chain_L2$", samples=2, only_msgs="after a terminal"), J("^vhC02_core_3x1$", preempt=0, samples=2), J("^vhC05_conc_v1$", preempt=0, samples=1, only_msgs="after a terminal"), J("^vhC10_conc_", preempt=0, samples=1, only_msgs="after a terminal"), J("^vhC02_ctx_n1$", preempt=1, samples=1, only_msgs="after a terminal|grammar")], "thorough": [J("^vhC01_.*_L4$", samples=12), J("^vhC02_core_3x1$", preempt=0, samples=2), J("^vhC02_core_2x2$", preempt=1, samples=2, maxpaths=1500000), J("^vhC05_conc_v1$", preempt=0, samples=1, only_msgs="after a terminal", maxpaths=1500000), J("^vhC10_conc_", preempt=1, samples=1, only_msgs="after a terminal", maxpaths=1500000)],
             "bounds": {"script_length_quick": 3, "script_length_thorough": 4}, "assumptions": []},
     "C11": {"quick": [J("^vhC11_.*_K4$|^vhC11_pipeshare_2$", samples=4), J("^vhC11_conc_2$", preempt=0, samples=2), J("^vhC11_conc_2$", preempt=1, samples=2), J("^vhC10_conc_(publish|behavior|replay)$", preempt=0, samples=1, only_msgs="linearization"), J("^vhC10_seq_(publish|behavior|replay)_K4$", samples=1)], "thorough": [J("^vhC11_.*_K5$|^vhC11_pipeshare_2$", samples=8), J("^vhC11_conc_2$", preempt=0, samples=2), J("^vhC11_conc_2$", preempt=2, samples=2), J("^vhC10_conc_(publish|behavior|replay)$", preempt=1, samples=1, only_msgs="linearization", maxpaths=1500000)], "bounds": {}, "assumptions": []},
@@ -58,7 +58,7 @@ PROPS = {
     "C16": {"quick": [J("^vhC16_.*2$", samples=2, timeshim=True), J("^vhC14_ctx_L1$", samples=2, timeshim=True, only_msgs="long after the subscription context"), J("^vhC05_multi_T4$", samples=1, only_msgs="^ThrottleWhen|^SampleWhen|^BufferWhen")], "thorough": [J("^vhC16_(delay|timeout|throttle)_n3$|^vhC16_sample_n2$", samples=2, timeshim=True, solver_timeout_ms=60000, solver="z3-new"), J("^vhC16_interval_c2$|^vhC16_overlap_2$|^vhC16_delayctx_2$", samples=2, timeshim=True, xcheck="z3-new", xrate=5)], "bounds": {}, "assumptions": []},
     "C10": {"quick": [J("^vhC10_seq_.*_K4$", samples=3), J("^vhC10_conc(via)?_", preempt=0, samples=1), J("^vhC10_conc_(behavior|unicast|async)|^vhC10_concsub_", preempt=1, samples=1)], "thorough": [J("^vhC10_seq_.*_K5$", samples=6), J("^vhC10_conc(via)?_", preempt=0, samples=1), J("^vhC10_conc_|^vhC10_concsub_", preempt=2, samples=1, maxpaths=3000000)],
             "bounds": {"ops_quick": 4, "ops_thorough": 5, "subscribers": 3}, "assumptions": []},
-    "C04": {"quick": [J("^vhC04_(ref_L5|variants_L2|blocking_L2|chain_L2|pipe_L2|nilerr_L2)$", samples=8), J("^vhC12_overlap_L2$", samples=2, only_msgs="of two overlapping subscriptions"), J("^vhC05_arity_s4$", samples=2)], "thorough": [J("^vhC04_(ref_L6|variants_L3|blocking_L3|chain_L3|pipe_L3|nilerr_L3)$", samples=16, xcheck="z3-new", xrate=50)],
+    "C04": {"quick": [J("^vhC04_(ref_L5|variants_L2|blocking_L2|chain_L2|pipe_L2|nilerr_L2)$", samples=8), J("^vhC12_overlap_L2$", samples=2, only_msgs="of two overlapping subscriptions"), J("^vhC05_arity_s4$", samples=2), J("^vhC05_multi_T4$", samples=1, only_msgs="^WindowWhen|^BufferWhen|^SampleWhen|^ThrottleWhen")], "thorough": [J("^vhC04_(ref_L6|variants_L3|blocking_L3|chain_L3|pipe_L3|nilerr_L3)$", samples=16, xcheck="z3-new", xrate=50)],
             "bounds": {"script_length_quick": 5, "script_length_thorough": 6}, "assumptions": []},
 }
 
